@@ -39,10 +39,10 @@ rep.coverage.update(evaluations=ev, distinct_nontrivial=nt, exhaustive=exh, samp
 
 # ---- (b) concurrent requests: the real fetch.go under the controlled scheduler
 # (n, sub, entry, small, preempt, env, shards, fault kinds (0 = all three))
-QUICK = [(3, "", "lib", True, 3, 1, 48, 1), (2, "", "lib", True, 3, 1, 4, 0), (2, "", "lib", False, 2, 1, 1, 0), (2, "top", "lib", False, 2, 1, 1, 0), (2, "", "wasi", False, 2, 1, 1, 0),
+QUICK = [(3, "", "lib", True, 3, 1, 48, 1), (2, "", "lib", True, 3, 1, 4, 0), (2, "", "lib", False, 2, 1, 1, 0), (2, "top", "lib", False, 2, 1, 1, 0), (2, "", "wasi", False, 2, 1, 1, 0), (2, "", "esp", True, 2, 1, 8, 1),
          (3, "", "lib", False, 2, 1, 8, 0), (3, "", "wasi", True, 1, 1, 1, 0), (4, "", "lib", True, 1, 1, 1, 0)]
 THOROUGH = [(3, "", "lib", True, 3, 1, 48, 0), (3, "", "wasi", True, 3, 1, 48, 1), (2, "", "lib", False, 3, 2, 4, 0), (2, "top", "lib", False, 3, 2, 4, 0),
-            (2, "", "wasi", False, 3, 2, 4, 0), (3, "", "lib", False, 2, 2, 16, 0), (3, "top", "wasi", True, 2, 1, 8, 0), (4, "", "lib", True, 2, 1, 16, 0)]
+            (2, "", "wasi", False, 3, 2, 4, 0), (3, "", "lib", False, 2, 2, 16, 0), (3, "top", "wasi", True, 2, 1, 8, 0), (4, "", "lib", True, 2, 1, 16, 0), (3, "", "esp", True, 2, 1, 16, 1), (2, "", "esp", False, 3, 1, 16, 0)]
 conc = {"configs": {}, "execs": 0, "points": 0}
 try:
     build_explorer()
@@ -78,7 +78,7 @@ except BuildError as e:
     rep.violation("harness:fetch:build", str(e)); exh = False
 rep.coverage.update(schedules=conc["execs"], scheduling_points=conc["points"], states=conc["points"], transitions=conc["points"],
     traces_validated_against_impl=conc["execs"], exhaustive=exh, concurrent_requests=conc["configs"],
-    concurrency_rule="n concurrent requests (checkDownloadAndExtractLib with and without an internal directory, checkDownloadAndExtractWasiSDK) for one destination; "
+    concurrency_rule="n concurrent requests (checkDownloadAndExtractLib with and without an internal directory, checkDownloadAndExtractWasiSDK, checkDownloadAndExtractESPClang with a .tar.xz made and unpacked by the system tar) for one destination; "
         "fetch.go is the working-tree file with only its os/syscall/net/http/time import paths redirected; every os call, flock, close and http.Get is a scheduling point on the "
         "real file system; flock is one scheduler mutex per inode owned by the open description (dropped on Close); the environment may fail a download (connection error, "
         "body cut half way, status 500) or let a day pass during a time.Sleep (should fetch.go poll) within the env bound; all schedules within the preemption bound; oracle at every point: if the destination exists it holds every "
